@@ -53,7 +53,13 @@ func run(c Case) (res ev.Result) {
 		return (c.OnlyMode == "" || c.OnlyMode == mode) && (c.OnlyOffset < 0 || c.OnlyOffset == k)
 	}
 	var n, nt int64
-	defer func() { counters.AddEnum(n, nt, "") }()
+	perMode := map[string]int64{}
+	defer func() {
+		counters.AddEnum(n, nt, "")
+		for m, k := range perMode {
+			counters.Class(m, k)
+		}
+	}()
 	// ---- write direction: budget k bytes, k = 0 .. len(file) (k == len: no fault)
 	for _, wm := range []string{"write-short", "write-zero", "write-full-count", "write-transient"} {
 		mode := wm
@@ -63,6 +69,7 @@ func run(c Case) (res ev.Result) {
 				continue
 			}
 			n++
+			perMode[mode]++
 			if k > 14 {
 				nt++
 			}
@@ -101,6 +108,7 @@ func run(c Case) (res ev.Result) {
 				continue
 			}
 			n++
+			perMode[mode]++
 			if k > 14 {
 				nt++
 			}
